@@ -194,6 +194,7 @@ class Interp:
         self.var_bounds = {}
         self.bcache = {}
         self.contracts_on = set()
+        self.trace_calls = set()     # callee name fragments whose calls (argument values) are recorded in the path log
         self.auto_merge = set()      # function name suffixes whose paths are merged into one summary (autosum.py)
         self.auto_cache = {}
         self.max_blocks = 400000
@@ -732,10 +733,52 @@ class Interp:
         st.ghost['divs'] = st.ghost.get('divs', ()) + ((x, y, q, r),)
         return q, r
 
-    def gdiv(self, st, x, y):
+    def sem_div_lookup(self, st, xs_, ys_):
+        """a division already made on this path whose operands are *provably* equal (under the path condition) to xs_, ys_:
+        the spec side then talks about the very quotient the code computed (no nonlinear uniqueness argument needed)."""
+        divs = st.ghost.get('divs', ())
+        if not divs:
+            return None
+        s = z3.Solver()
+        s.set('timeout', 4000)
+        for c in st.pc:
+            if c is not True:
+                s.add(c)
+        if s.check() != z3.sat:
+            return None
+        m = s.model()
+
+        def ev(t):
+            return t if isinstance(t, int) else m.eval(t, model_completion=True).as_long()
+        try:
+            vx, vy = ev(xs_), ev(ys_)
+        except Exception:   # noqa
+            return None
+        for (x0, y0, q0, r0) in divs:
+            try:
+                if ev(x0) != vx or ev(y0) != vy:
+                    continue
+            except Exception:   # noqa
+                continue
+            s.push()
+            s.add(z3.Or(x0 != xs_, y0 != ys_))
+            r = s.check()
+            s.pop()
+            if r == z3.unsat:
+                return q0
+        return None
+
+    def gdiv(self, st, x, y, semantic=False):
         """guarded floor division that never constrains the path: q = floor(x/y) when y > 0, else 0 (memoised)."""
         if isinstance(y, int):
             if y > 0:
+                if semantic and is_sym(x):
+                    xs_ = z3.simplify(x)
+                    hit = [q0 for (x0, y0, q0, r0) in st.ghost.get('divs', ()) if same_term(x0, xs_) and same_term(y0, y)]
+                    if not hit:
+                        q0 = self.sem_div_lookup(st, xs_, y)
+                        if q0 is not None:
+                            return q0
                 return self.idiv(st, x, y)[0]
             return 0
         xs_ = z3.simplify(x) if is_sym(x) else x
@@ -743,6 +786,10 @@ class Interp:
         for (x0, y0, q0, r0) in st.ghost.get('divs', ()):
             if same_term(x0, xs_) and same_term(y0, ys_):
                 return q0
+        if semantic:
+            q0 = self.sem_div_lookup(st, xs_, ys_)
+            if q0 is not None:
+                return z3.If(ys_ > 0, q0, 0)
         q = self.fresh('gq')
         r = self.fresh('gr')
         st.add(z3.And(z3.Implies(ys_ > 0, z3.And(xs_ == q * ys_ + r, r >= 0, r < ys_)), z3.Implies(ys_ <= 0, q == 0), q >= 0))
@@ -1098,6 +1145,10 @@ class Interp:
 
     # ------------------------------------------------------------------ calls
     def dispatch(self, st, fn, callee, args, dest_ty):
+        if self.trace_calls:
+            for t in self.trace_calls:
+                if t in callee:
+                    st.log = st.log + (('call', t, tuple(self.val(st, a) if isinstance(a, Ref) else a for a in args)),)
         h = self.summ.lookup(callee)
         if h is not None:
             self.stats.summaries.add(h[0])
